@@ -8,7 +8,7 @@ from harness import lib
 from harness.props.c19_common import Unit, big, crosscheck, f32_quot, zl
 
 NAME = "symmetric_moving_average"
-RULE = ("symmetric_moving_average: all waveforms of 1..5 samples over {0..3} and 6 samples over {0,1} (thorough: 1..8 over {0..3}) with every wing width "
+RULE = ("symmetric_moving_average: all waveforms of 1..4 samples over {0..3}, 5 over {0..2} and 6 over {0,1} (thorough: 1..8 over {0..3}) with every wing width "
         "0..n+2, float32 and float64 alternating, plus seeded random waveforms (<=40 samples, values up to 1000); "
         "non-trivial = wing >= 1, at least wing+2 samples (a sample leaves the window) and a non-constant waveform; "
         "distinct by (waveform, wing).")
@@ -54,10 +54,10 @@ def unit(ctx):
     nmax = 8 if big(ctx) else 6
     cases = []
     for n in range(1, nmax + 1):
-        for a in itertools.product(range(4 if (n <= 5 or big(ctx)) else 2), repeat=n):
+        for a in itertools.product(range(4 if (n <= 4 or big(ctx)) else (3 if n == 5 else 2)), repeat=n):
             for w in range(0, n + 3):
                 cases.append((list(a), w))
-    for _ in range(20000 if ctx.thorough else 3000):
+    for _ in range(20000 if ctx.thorough else 2000):
         n = ctx.rng.randint(1, 40)
         a = [ctx.rng.choice([0, 0, 1, 2, 3, 7, 100, 1000]) for _ in range(n)]
         cases.append((a, ctx.rng.randint(0, n + 2)))
